@@ -265,7 +265,7 @@ def gen_expr(rng, depth, refs, feat):
         return ("lookup", a(), rng.choice(feat["tables"]))
     if r < 23 and refs:
         return ("delay", rng.choice(refs), rng.choice([1.0, 0.5, 2.0]), rnum(rng))
-    return ("pulse", rnum(rng), rng.choice([0.5, 1.0, 2.0, 3.0]), rng.choice([0.0, 0.5, 1.0]))
+    return ("pulse", rnum(rng), rng.choice([0.5, 1.0, 2.0, 3.0, 0.3, 1.1, 0.75]), rng.choice([0.0, 0.5, 1.0, 0.3, 0.6]))
 
 
 def gen_model(rng, dts):
@@ -431,11 +431,16 @@ def reference_euler(spec, times):
             return ev(g[1], k, shifted) if tval(k, shifted) > ev(g[2], k, shifted) else 0.0
         if c == "lookup": return lookup(ev(g[1], k, shifted), spec["tables"][g[2]])
         if c == "pulse":
-            # standard definition on the grid: volume/dt at the grid points first + j*interval (j = 0 only without interval)
-            x = (start + k * dt) - g[2]
-            if g[3] == 0.0:
-                return g[1] / dt if abs(x) < dt / 2 else 0.0
-            return g[1] / dt if (x > -dt / 2 and abs(x - g[3] * round(x / g[3])) < dt / 2) else 0.0
+            # standard definition on the grid, in exact decimal arithmetic: volume/dt at the one grid point t_k whose
+            # window [t_k - dt/2, t_k + dt/2) contains a pulse time first + j*interval (j = 0 only without interval)
+            from fractions import Fraction as Fr
+            tk = Fr(str(start)) + k * Fr(str(dt)); h = Fr(str(dt)) / 2
+            first, iv = Fr(str(g[2])), Fr(str(g[3]))
+            cands = [first]
+            if iv != 0:
+                j = (tk - first) / iv
+                cands = [first + n * iv for n in (int(j) - 1, int(j), int(j) + 1) if n >= 0]
+            return g[1] / dt if any(tk - h <= pt < tk + h for pt in cands) else 0.0
         if c == "delay":
             td = tval(k, shifted) - g[2]
             if td >= start:
@@ -589,8 +594,9 @@ def run(chk):
             continue
         got = dict(x.split("=", 1) for x in reply.split(";")) if "=" in reply else {}
         for n, _, _ in spec["els"]:
-            want = ",".join(fbits(v) for v in real[n])
-            if got.get(n) != want:
+            # the sign of zero is not compared: Python's max(0, x) returns the int 0, and int arithmetic has no -0
+            want = ",".join(fbits(v if v != 0 else 0.0) for v in real[n])
+            if (got.get(n) or "").replace("8000000000000000", "0000000000000000") != want:
                 corr = corr or (spec, f"element {n}: model {got.get(n)} impl {want}")
                 break
     chk.cov["traces_validated_against_impl"] = len(metas)
